@@ -1,7 +1,7 @@
 (* Entry points of the model, addressed by name over the line protocol. *)
 From Coq Require Import String.
 From Coq Require Import NArith ZArith List Bool.
-From DI Require Import Result PyStr Val Codec.
+From DI Require Import Result PyStr Val Codec Version Dpkg.
 Import ListNotations.
 Open Scope N_scope.
 
@@ -29,6 +29,51 @@ Definition class_by_name (fn : str) : option (N -> bool) :=
   else if fn_is "is_nd" fn then Some is_nd
   else if fn_is "is_pydigit" fn then Some is_pydigit
   else None.
+
+Definition VVersion (v : version) : val :=
+  VList [VN (epoch v); VStr (upstream v); VStr (revision v)].
+
+Definition version_roundtrip (s : str) : val :=
+  match from_string s with
+  | Raise e => VExn e
+  | Ok v =>
+      let p := to_string v in
+      VList [VVersion v; VStr p;
+             VRes (fun v' => VList [VVersion v'; VBool (version_eqb v v'); VStr (to_string v')])
+                  (from_string p)]
+  end.
+
+Definition version_ops (a b : str) : val :=
+  match from_string a, from_string b with
+  | Ok va, Ok vb =>
+      VList [VRes VInt (compare_version_objects va vb);
+             VRes VBool (v_lt va vb); VRes VBool (v_le va vb);
+             VRes VBool (v_gt va vb); VRes VBool (v_ge va vb);
+             VBool (version_eqb va vb)]
+  | Raise e, _ => VExn e
+  | _, Raise e => VExn e
+  end.
+
+Definition dispatch_version (fn : str) (args : list val) : option val :=
+  match args with
+  | [VStr a] =>
+      if fn_is "from_string" fn then Some (VRes VVersion (from_string a))
+      else if fn_is "valid_version" fn then Some (VBool (valid_version a))
+      else if fn_is "version_roundtrip" fn then Some (version_roundtrip a)
+      else None
+  | [VStr a; VStr b] =>
+      if fn_is "compare_strings" fn then Some (VRes VInt (compare_strings a b))
+      else if fn_is "compare_versions" fn then Some (VRes VInt (compare_versions a b))
+      else if fn_is "version_ops" fn then Some (version_ops a b)
+      else if fn_is "verrevcmp_sgn" fn then Some (VInt (Z.sgn (verrevcmp a b)))
+      else if fn_is "dpkg_compare_sgn" fn then Some (VInt (Z.sgn (dpkg_compare_strings a b)))
+      else if fn_is "key_compare" fn then Some (VInt (Z_of_cmp (cmp_key (key a) (key b))))
+      else None
+  | [VStr a; VStr o; VStr b] =>
+      if fn_is "eval_constraint" fn then Some (VRes VBool (eval_constraint a o b))
+      else None
+  | _ => None
+  end.
 
 Definition dispatch (fn : str) (args : list val) : val :=
   match args with
@@ -70,4 +115,10 @@ Definition dispatch (fn : str) (args : list val) : val :=
   | _ => VNone
   end.
 
-Definition run (fn : str) (args : list val) : str := show_val (dispatch fn args).
+Definition dispatch_all (fn : str) (args : list val) : val :=
+  match dispatch_version fn args with
+  | Some v => v
+  | None => dispatch fn args
+  end.
+
+Definition run (fn : str) (args : list val) : str := show_val (dispatch_all fn args).
